@@ -204,7 +204,7 @@ def groups_of(lines):
         elif l.startswith("#"):
             if gs:
                 gs[-1].info.append(l[1:])
-        elif l.startswith("ev "):
+        elif l.startswith(("ev ", "rec ")):
             cur.evs.append(l)
         else:
             cur.line = l
